@@ -728,8 +728,14 @@ class Absolute(Unary):
         self.signed = False
 
     def calculate_unary(self, dst, long):
-        with self.ebpf.sr[dst] < 0:
-            self.ebpf.sr[dst] = -self.ebpf.sr[dst]
+        # a signed 32 bit value is zero-extended in its register:
+        # test its own sign bit, not bit 63
+        if long or not self.arg.signed:
+            regs = self.ebpf.sr
+        else:
+            regs = self.ebpf.sw
+        with regs[dst] < 0:
+            regs[dst] = -regs[dst]
 
 
 class SwitchEndian(Unary):
